@@ -19,7 +19,7 @@ acquisition on an unknown receiver) it says so and the obligation counts as brok
 """
 import os, re, sys, json
 
-REPO = "/repo"
+REPO = os.environ.get("VERIF_REPO", "/repo")   # VERIF_REPO: development-time mutation slots only (design/mutate.py)
 ROOT = os.path.dirname(os.path.dirname(os.path.abspath(__file__)))
 GEN_DIR = os.path.join(ROOT, "lean", "Cachelito", "Cachelito", "Generated")
 
